@@ -722,6 +722,24 @@ class World:
                                   % (spec['anchor'], head))
             spec = dict(spec)
             spec['alias'] = alias
+        # locals the invariants mention that were renamed since the contract
+        # was written: the local that is first bound the same way
+        try:
+            from . import fingerprints
+            wanted = set()
+            for inv in spec.get('invariant') or ():
+                for n in ast.walk(ast.parse(inv.strip(), mode='eval')):
+                    if isinstance(n, ast.Name):
+                        wanted.add(n.id)
+            wanted |= set(spec.get('havoc') or ())
+            ren = fingerprints.renamed_locals(c.target, fnode, wanted)
+        except Exception:       # noqa
+            ren = {}
+        if ren:
+            spec = dict(spec)
+            merged = dict(ren)
+            merged.update(spec.get('alias') or {})
+            spec['alias'] = merged
         return spec
 
     def exec_loop(self, it, node, fr):
